@@ -1,17 +1,63 @@
 (** C02 — Dense and readable generators emit code that means the same tree.
     Only statements, closed by [exact], with their assumptions printed. *)
-From DL Require Import Lib.Bytes Model.Lexer Proof.LexerFacts.
+From DL Require Import Lib.Bytes Model.Lexer Model.DenseGen Model.Precedence Model.C02Spec Proof.DenseGenFacts
+  Proof.PrecedenceFacts Proof.C02FrozenTables Proof.C02Examples.
 Open Scope N_scope.
 
-Theorem C02_lexer_is_a_fold : forall x y st,
-  run st (x ++ y) =
-  let '(o1, s1) := run st x in
-  let '(o2, s2) := run s1 y in
-  (o1 ++ o2, s2).
-Proof. exact run_app. Qed.
-Print Assumptions C02_lexer_is_a_fold.
-Check C02_lexer_is_a_fold : forall x y st,
-  run st (x ++ y) =
-  let '(o1, s1) := run st x in
-  let '(o2, s2) := run s1 y in
-  (o1 ++ o2, s2).
+Theorem C02_no_fusion_stream : forall T span items,
+  stream_ok T items = true ->
+  lex_all (emit T span items) = lex_all (canon items)
+  /\ lex (emit T span items) = lex (canon items).
+Proof. exact no_fusion_stream. Qed.
+Print Assumptions C02_no_fusion_stream.
+Check C02_no_fusion_stream : forall T span items,
+  stream_ok T items = true ->
+  lex_all (emit T span items) = lex_all (canon items)
+  /\ lex (emit T span items) = lex (canon items).
+
+Theorem C02_no_fusion : forall T, spacing_ok T = true ->
+  forall span items, adjacency_ok items = true ->
+  lex (emit T span items) = lex (canon items).
+Proof. exact no_fusion. Qed.
+Print Assumptions C02_no_fusion.
+Check C02_no_fusion : forall T, spacing_ok T = true ->
+  forall span items, adjacency_ok items = true ->
+  lex (emit T span items) = lex (canon items).
+
+Theorem C02_frozen_table_ok : spacing_ok Proof.C02FrozenTables.tbl = true.
+Proof. exact frozen_table_ok. Qed.
+Print Assumptions C02_frozen_table_ok.
+Check C02_frozen_table_ok : spacing_ok Proof.C02FrozenTables.tbl = true.
+
+Theorem C02_no_fusion_unrestricted_refuted :
+  exists items span, lex (emit Proof.C02FrozenTables.tbl span items) <> lex (canon items).
+Proof. exact no_fusion_unrestricted_refuted. Qed.
+Print Assumptions C02_no_fusion_unrestricted_refuted.
+Check C02_no_fusion_unrestricted_refuted :
+  exists items span, lex (emit Proof.C02FrozenTables.tbl span items) <> lex (canon items).
+
+Theorem C02_paren_roundtrip : forall P, prec_ok P = true ->
+  forall e, parse_expr (tokens_of_expr P e) = Some (parenthesize P e).
+Proof. exact paren_roundtrip. Qed.
+Print Assumptions C02_paren_roundtrip.
+Check C02_paren_roundtrip : forall P, prec_ok P = true ->
+  forall e, parse_expr (tokens_of_expr P e) = Some (parenthesize P e).
+
+Theorem C02_paren_roundtrip_nesting : forall P, prec_ok P = true ->
+  forall e, exists e', parse_expr (tokens_of_expr P e) = Some e' /\ strip e' = strip e.
+Proof. exact paren_roundtrip_nesting. Qed.
+Print Assumptions C02_paren_roundtrip_nesting.
+Check C02_paren_roundtrip_nesting : forall P, prec_ok P = true ->
+  forall e, exists e', parse_expr (tokens_of_expr P e) = Some e' /\ strip e' = strip e.
+
+Theorem C02_reference_parser_reads_well_parenthesised_trees :
+  forall e, wp e = true -> parse_expr (print_plain e) = Some e.
+Proof. exact parse_print_plain. Qed.
+Print Assumptions C02_reference_parser_reads_well_parenthesised_trees.
+Check C02_reference_parser_reads_well_parenthesised_trees :
+  forall e, wp e = true -> parse_expr (print_plain e) = Some e.
+
+Theorem C02_frozen_prec_ok : prec_ok Proof.C02FrozenTables.ptbl = true.
+Proof. exact frozen_prec_ok. Qed.
+Print Assumptions C02_frozen_prec_ok.
+Check C02_frozen_prec_ok : prec_ok Proof.C02FrozenTables.ptbl = true.
